@@ -116,3 +116,231 @@ ASSUMPTIONS.append("bounded stand-in (labelled, not a proof) for the drivers aro
                    "X-drop table growth, trace offsetting): align_banded / align_local_gapped / align_local_ungapped vs align_optimal and a brute-force "
                    "maximum on sequence pairs of length <= 4 (bounded/C09.py).  The upper bound used is the maximum over ALL alignments "
                    "(abutting gaps allowed for affine penalties too), the weakest reading of 'true optimum'")
+
+
+# ==========================================================================
+# banded.pyx::_fill_align_table -- the 'straightened' band table.
+# Cell (i, j) of the table stands for the sequence positions
+#     seq_i = i - 1,   seq_j = j - 1 + seq_i + lower_diag
+# The contract: every cell whose (seq_i, seq_j) lies inside both sequences and the band
+# holds the Bellman maximum over its diagonal (i-1, j), left (i, j-1) and top (i-1, j+1)
+# neighbours of the straightened table; everything else (incl. the two sentinel columns)
+# is untouched; all memoryview accesses (boundscheck(False), wraparound(False)) are in bounds.
+
+BD = "sequence/align/banded.pyx"
+TT = "sequence/align/tracetable.pyx"
+
+
+def zmax(*xs):
+    m = xs[0]
+    for x in xs[1:]:
+        m = z3.If(x > m, x, m)
+    return m
+
+
+def bits_sum(pairs):
+    return z3.Sum([z3.If(c, z3.IntVal(v), z3.IntVal(0)) for c, v in pairs])
+
+
+def setup_band_fill(I):
+    n1 = sym_int(I, "len1", 1, 2 ** 30)
+    n2 = sym_int(I, "len2", 1, 2 ** 30)
+    asz = sym_int(I, "alph", 1, 2 ** 16)
+    lower, upper = sym_c(I, "int", "lower_diag"), sym_c(I, "int", "upper_diag")
+    # what align_banded establishes before the call: seq1 is the shorter sequence, the band is
+    # cropped to the table and not empty
+    I.ctx.assume(z3.And(n1 <= n2, lower.term >= -n1 + 1, upper.term <= n2 - 1, lower.term <= upper.term))
+    width = upper.term - lower.term + 1
+    code1 = SymArr("code1", "uint8", [n1]).view(memview=True)
+    code2 = SymArr("code2", "uint8", [n2]).view(memview=True)
+    mat = SymArr("mat", "int32", [asz, asz], readonly=True).view(memview=True)
+    trace_table = SymArr("trace_table", "uint8", [n1 + 1, width + 2]).view(memview=True)
+    score_table = SymArr("score_table", "int32", [n1 + 1, width + 2]).view(memview=True)
+    gap = sym_c(I, "int", "gap_penalty")
+    local = sym_c(I, "bint", "local")
+    k = z3.Int("k!c")
+    I.ctx.assume(z3.ForAll([k], z3.Implies(z3.And(k >= 0, k < n1), z3.And(z3.Select(code1.arr, k) >= 0, z3.Select(code1.arr, k) < asz))))
+    I.ctx.assume(z3.ForAll([k], z3.Implies(z3.And(k >= 0, k < n2), z3.And(z3.Select(code2.arr, k) >= 0, z3.Select(code2.arr, k) < asz))))
+    g = {"S0": score_table.arr, "T0": trace_table.arr, "n1": n1, "n2": n2, "lo": lower.term, "up": upper.term, "w": width,
+         "c1": code1.arr, "c2": code2.arr, "M": mat.arr, "gap": gap.term, "loc": local.term}
+    I.ghost["band"] = g
+    return {"args": [code1, code2, mat, trace_table, score_table, lower, upper, gap, local], "ghost": g}
+
+
+def in_band(g, r, c):
+    """table cell (r, c), r >= 1, is a cell the fill visits: its seq_j lies in both the sequence and the band"""
+    sj = c - 1 + (r - 1) + g["lo"]
+    return z3.And(c >= 1, c <= g["w"], sj >= 0, sj < g["n2"])
+
+
+def bcell_ok(g, S, T, r, c):
+    sj = c - 1 + (r - 1) + g["lo"]
+    d = sel2(S, r - 1, c) + sel2(g["M"], z3.Select(g["c1"], r - 1), z3.Select(g["c2"], sj))
+    left = sel2(S, r, c - 1) + g["gap"]
+    top = sel2(S, r - 1, c + 1) + g["gap"]
+    m = zmax(d, left, top)
+    floor = z3.And(g["loc"] != 0, m <= 0)
+    return z3.And(sel2(S, r, c) == z3.If(floor, 0, m),
+                  sel2(T, r, c) == z3.If(floor, sel2(g["T0"], r, c), bits_sum([(d == m, 1), (left == m, 2), (top == m, 4)])))
+
+
+def _bframe(g, S, T, r, c):
+    return z3.And(sel2(S, r, c) == sel2(g["S0"], r, c), sel2(T, r, c) == sel2(g["T0"], r, c))
+
+
+def binv_outer(I, env):
+    g = I.ghost["band"]
+    S, T = env.lookup("score_table").arr, env.lookup("trace_table").arr
+    si = zint(I.unC(env.lookup("seq_i")))
+    r, c = z3.Ints("r!o c!o")
+    done = z3.ForAll([r, c], z3.Implies(z3.And(r >= 1, r <= si, in_band(g, r, c)), bcell_ok(g, S, T, r, c)))
+    frame = z3.ForAll([r, c], z3.Implies(z3.Or(r > si, r <= 0, z3.Not(in_band(g, r, c))), _bframe(g, S, T, r, c)))
+    return z3.And(done, frame, si >= 0, si <= g["n1"])
+
+
+def binv_inner(I, env):
+    g = I.ghost["band"]
+    S, T = env.lookup("score_table").arr, env.lookup("trace_table").arr
+    si = zint(I.unC(env.lookup("seq_i")))
+    sj = zint(I.unC(env.lookup("seq_j")))
+    i = zint(I.unC(env.lookup("i")))
+    r, c = z3.Ints("r!i c!i")
+    cj = sj - si - g["lo"] + 1          # table column of the next cell to be filled
+    done_rows = z3.ForAll([r, c], z3.Implies(z3.And(r >= 1, r <= si, in_band(g, r, c)), bcell_ok(g, S, T, r, c)))
+    done_row = z3.ForAll([c], z3.Implies(z3.And(in_band(g, i, c), c < cj), bcell_ok(g, S, T, i, c)))
+    frame = z3.ForAll([r, c], z3.Implies(z3.Or(r > i, z3.And(r == i, c >= cj), r <= 0, z3.Not(in_band(g, r, c))), _bframe(g, S, T, r, c)))
+    # (no upper bound on seq_j: the row's range may be empty, then the start already lies beyond the stop)
+    return z3.And(done_rows, done_row, frame, i == si + 1, si >= 0, si < g["n1"], sj >= 0, sj >= si + g["lo"])
+
+
+def ens_band_fill(I, env):
+    g = I.ghost["band"]
+    S, T = env.vars["score_table"].arr, env.vars["trace_table"].arr
+    r, c = I.ctx.fresh_int("r"), I.ctx.fresh_int("c")
+    return [("bellman_every_band_cell", implies(z3.And(r >= 1, r <= g["n1"], in_band(g, r, c)), bcell_ok(g, S, T, r, c))),
+            ("cells_outside_the_band_untouched", implies(z3.Or(r <= 0, r > g["n1"], z3.Not(in_band(g, r, c))), _bframe(g, S, T, r, c)))]
+
+
+def cc_trace_linear(I, f, args, kwargs):
+    """call-site use of get_trace_linear's contract (proved in C08 against its body)"""
+    a, b, c, cell = args
+    at, bt, ct = (zint(I.unC(x)) for x in (a, b, c))
+    m = zmax(at, bt, ct)
+    mx = I.ctx.fresh_cv("int32", "max_score")
+    I.ctx.assume(mx.term == m)
+    natives.setitem(I, cell, 0, mx, None)
+    tr = I.ctx.fresh_cv("uint8", "trace")
+    I.ctx.assume(tr.term == bits_sum([(at == m, 1), (bt == m, 2), (ct == m, 4)]))
+    return tr
+
+
+CASES.append(Case(BD + "::_fill_align_table", "CodeType=uint8", setup=setup_band_fill, overflow=False,
+                  call_contracts={TT + "::get_trace_linear": cc_trace_linear},
+                  loops={0: {"invariant": [binv_outer]}, 1: {"invariant": [binv_inner]}},
+                  ensures=[("band_recurrence", ens_band_fill)], timeout=30))
+
+
+# ---- banded.pyx::_fill_align_table_affine: the three Gotoh tables on the straightened band ----
+
+def setup_band_fill_affine(I):
+    n1 = sym_int(I, "len1", 1, 2 ** 30)
+    n2 = sym_int(I, "len2", 1, 2 ** 30)
+    asz = sym_int(I, "alph", 1, 2 ** 16)
+    lower, upper = sym_c(I, "int", "lower_diag"), sym_c(I, "int", "upper_diag")
+    I.ctx.assume(z3.And(n1 <= n2, lower.term >= -n1 + 1, upper.term <= n2 - 1, lower.term <= upper.term))
+    width = upper.term - lower.term + 1
+    code1 = SymArr("code1", "uint8", [n1]).view(memview=True)
+    code2 = SymArr("code2", "uint8", [n2]).view(memview=True)
+    mat = SymArr("mat", "int32", [asz, asz], readonly=True).view(memview=True)
+    trace_table = SymArr("trace_table", "uint8", [n1 + 1, width + 2]).view(memview=True)
+    tabs = [SymArr(nm, "int32", [n1 + 1, width + 2]).view(memview=True) for nm in ("m_table", "g1_table", "g2_table")]
+    go, ge = sym_c(I, "int", "gap_open"), sym_c(I, "int", "gap_ext")
+    local = sym_c(I, "bint", "local")
+    k = z3.Int("k!c")
+    I.ctx.assume(z3.ForAll([k], z3.Implies(z3.And(k >= 0, k < n1), z3.And(z3.Select(code1.arr, k) >= 0, z3.Select(code1.arr, k) < asz))))
+    I.ctx.assume(z3.ForAll([k], z3.Implies(z3.And(k >= 0, k < n2), z3.And(z3.Select(code2.arr, k) >= 0, z3.Select(code2.arr, k) < asz))))
+    g = {"T0": trace_table.arr, "M0": tabs[0].arr, "A0": tabs[1].arr, "B0": tabs[2].arr, "n1": n1, "n2": n2,
+         "lo": lower.term, "up": upper.term, "w": width, "c1": code1.arr, "c2": code2.arr, "M": mat.arr,
+         "go": go.term, "ge": ge.term, "loc": local.term}
+    I.ghost["band"] = g
+    return {"args": [code1, code2, mat, trace_table] + tabs + [lower, upper, go, ge, local], "ghost": g}
+
+
+def bacell_ok(g, Mt, A, B, T, r, c):
+    sj = c - 1 + (r - 1) + g["lo"]
+    local = g["loc"] != 0
+    sim = sel2(g["M"], z3.Select(g["c1"], r - 1), z3.Select(g["c2"], sj))
+    mm, am, bm = sel2(Mt, r - 1, c) + sim, sel2(A, r - 1, c) + sim, sel2(B, r - 1, c) + sim
+    ma, aa = sel2(Mt, r, c - 1) + g["go"], sel2(A, r, c - 1) + g["ge"]
+    mb, bb = sel2(Mt, r - 1, c + 1) + g["go"], sel2(B, r - 1, c + 1) + g["ge"]
+    m1, m2, m3 = zmax(mm, am, bm), zmax(ma, aa), zmax(mb, bb)
+    k1, k2, k3 = z3.Or(z3.Not(local), m1 > 0), z3.Or(z3.Not(local), m2 > 0), z3.Or(z3.Not(local), m3 > 0)
+    bits = bits_sum([(z3.And(k1, mm == m1), 1), (z3.And(k1, am == m1), 2), (z3.And(k1, bm == m1), 4),
+                     (z3.And(k2, ma == m2), 8), (z3.And(k2, aa == m2), 16), (z3.And(k3, mb == m3), 32), (z3.And(k3, bb == m3), 64)])
+    return z3.And(sel2(Mt, r, c) == z3.If(k1, m1, sel2(g["M0"], r, c)), sel2(A, r, c) == z3.If(k2, m2, sel2(g["A0"], r, c)),
+                  sel2(B, r, c) == z3.If(k3, m3, sel2(g["B0"], r, c)), sel2(T, r, c) == bits)
+
+
+def _batabs(env):
+    return [env.lookup(n).arr for n in ("m_table", "g1_table", "g2_table", "trace_table")]
+
+
+def _baframe(g, Mt, A, B, T, r, c):
+    return z3.And(sel2(Mt, r, c) == sel2(g["M0"], r, c), sel2(A, r, c) == sel2(g["A0"], r, c),
+                  sel2(B, r, c) == sel2(g["B0"], r, c), sel2(T, r, c) == sel2(g["T0"], r, c))
+
+
+def bainv_outer(I, env):
+    g = I.ghost["band"]
+    Mt, A, B, T = _batabs(env)
+    si = zint(I.unC(env.lookup("seq_i")))
+    r, c = z3.Ints("r!o c!o")
+    done = z3.ForAll([r, c], z3.Implies(z3.And(r >= 1, r <= si, in_band(g, r, c)), bacell_ok(g, Mt, A, B, T, r, c)))
+    frame = z3.ForAll([r, c], z3.Implies(z3.Or(r > si, r <= 0, z3.Not(in_band(g, r, c))), _baframe(g, Mt, A, B, T, r, c)))
+    return z3.And(done, frame, si >= 0, si <= g["n1"])
+
+
+def bainv_inner(I, env):
+    g = I.ghost["band"]
+    Mt, A, B, T = _batabs(env)
+    si = zint(I.unC(env.lookup("seq_i")))
+    sj = zint(I.unC(env.lookup("seq_j")))
+    i = zint(I.unC(env.lookup("i")))
+    r, c = z3.Ints("r!i c!i")
+    cj = sj - si - g["lo"] + 1
+    done_rows = z3.ForAll([r, c], z3.Implies(z3.And(r >= 1, r <= si, in_band(g, r, c)), bacell_ok(g, Mt, A, B, T, r, c)))
+    done_row = z3.ForAll([c], z3.Implies(z3.And(in_band(g, i, c), c < cj), bacell_ok(g, Mt, A, B, T, i, c)))
+    frame = z3.ForAll([r, c], z3.Implies(z3.Or(r > i, z3.And(r == i, c >= cj), r <= 0, z3.Not(in_band(g, r, c))), _baframe(g, Mt, A, B, T, r, c)))
+    return z3.And(done_rows, done_row, frame, i == si + 1, si >= 0, si < g["n1"], sj >= 0, sj >= si + g["lo"])
+
+
+def ens_band_fill_affine(I, env):
+    g = I.ghost["band"]
+    Mt, A, B, T = (env.vars[n].arr for n in ("m_table", "g1_table", "g2_table", "trace_table"))
+    r, c = I.ctx.fresh_int("r"), I.ctx.fresh_int("c")
+    return [("recurrences_every_band_cell", implies(z3.And(r >= 1, r <= g["n1"], in_band(g, r, c)), bacell_ok(g, Mt, A, B, T, r, c))),
+            ("cells_outside_the_band_untouched", implies(z3.Or(r <= 0, r > g["n1"], z3.Not(in_band(g, r, c))), _baframe(g, Mt, A, B, T, r, c)))]
+
+
+def cc_trace_affine(I, f, args, kwargs):
+    """call-site use of get_trace_affine's contract (proved in C08 against its body): maxima through
+    the out-parameters, the flag byte as a bit-vector whose bits are the proved bit_* postconditions"""
+    ins = [zint(I.unC(x)) for x in args[:7]]
+    mm, lm, tm, ml, ll, mt, tt = ins
+    m1, m2, m3 = zmax(mm, lm, tm), zmax(ml, ll), zmax(mt, tt)
+    for cell, m, nm in zip(args[7:], (m1, m2, m3), ("max_match", "max_gap_left", "max_gap_top")):
+        v = I.ctx.fresh_cv("int32", nm)
+        I.ctx.assume(v.term == m)
+        natives.setitem(I, cell, 0, v, None)
+    conds = [mm == m1, lm == m1, tm == m1, ml == m2, ll == m2, mt == m3, tt == m3]
+    bv = z3.BitVec(I.ctx.fresh_name("trace_bits"), 8)
+    for b, cnd in enumerate(conds):
+        I.ctx.assume((z3.Extract(b, b, bv) == 1) == cnd)
+    I.ctx.assume(z3.Extract(7, 7, bv) == 0)
+    return CV("uint8", z3.BV2Int(bv, is_signed=False))
+
+
+CASES.append(Case(BD + "::_fill_align_table_affine", "CodeType=uint8", setup=setup_band_fill_affine, overflow=False,
+                  call_contracts={TT + "::get_trace_affine": cc_trace_affine},
+                  loops={0: {"invariant": [bainv_outer]}, 1: {"invariant": [bainv_inner]}},
+                  ensures=[("band_recurrence_affine", ens_band_fill_affine)], timeout=30))
